@@ -31,6 +31,9 @@ func c29Msg(r *vu.RNG) []byte {
 	default:
 		n = r.Intn(1200)
 	}
+	if vu.Thorough() && r.Chance(1, 400) { // long inputs: the bulk loops of the assembly back ends
+		n = 16384 + r.Intn(2)*49152 + r.Range(-1, 130)
+	}
 	b := r.Bytes(n)
 	switch r.Intn(8) {
 	case 0:
